@@ -3,7 +3,7 @@ library while they are generated (so that selectors can be valid for the handles
 handle observed by shadow read after every step."""
 import random
 from .common import NONE
-from .props import RVIAS
+from .props import HVIAS as RVIAS
 from . import exec_heap
 from .drivers_ragged import rnd_lens, rnd_slice
 
